@@ -47,6 +47,14 @@ def run(tier, out, model_ok, proof):
     C03 = importlib.import_module("checks.C03")
     for k, (cls, d) in enumerate(C03.fault_docs(rng, 12 if big else 3)):
         cases.append(treecorr.single_file_case("flt%d" % k, d))
+    # odd paths (empty, '.', '..' segments; braces) as method path, URL path and JSON-RPC URL: when accepted,
+    # key = id = protocol/method/path must still hold
+    import stress
+    for name, doc in stress.path_shapes(2):
+        cases.append(treecorr.single_file_case("ps_" + name, doc.encode()))
+    for k, doc in enumerate(['JSIGHT 0.3\nGET /a/b\n  200 any\nGET /a//b\n  200 any\n', 'JSIGHT 0.3\nURL /shop//items/{id}\n  GET\n    200 any\n  POST\n    200 any\n',
+                             'JSIGHT 0.3\nGET /A/b\n  200 any\nGET /a/B\n  200 any\n', 'JSIGHT 0.3\nGET /a/b/\n  200 any\nGET /a/b\n  200 any\n']):
+        cases.append(treecorr.single_file_case("pp%d" % k, doc.encode()))
     corp = corpus_files()
     for i, f in enumerate(corp if big else rng.sample(corp, 250)):
         d = open(f, "rb").read()
